@@ -61,5 +61,39 @@ theorem iterable_map_object (E : Env) (e : Ty) (ns : List String) (ts : List Ty)
     Iterable E ⟨.map e, .smap ks vs⟩ ∧ Iterable E ⟨.object ns ts os, .smap ks vs⟩ :=
   ⟨⟨rfl, ks, _, rfl, rfl⟩, ⟨rfl, ns, _, rfl, rfl⟩⟩
 
+/-- the bindings of arguments that all have the map type `map(e)` all have type `e`
+(the homogeneity hypothesis of `merge_map`) -/
+theorem allBindings_map_ty (E : Env) (e : Ty) (args : List Value) (hty : ∀ a ∈ args, a.ty = .map e) :
+    ∀ kv ∈ allBindings E args, kv.2.ty = e := by
+  intro kv hkv
+  simp only [allBindings, List.mem_flatMap] at hkv
+  obtain ⟨a, ha, hmem⟩ := hkv
+  obtain ⟨t, p⟩ := a
+  have ht : t = .map e := hty _ ha
+  subst ht
+  split at hmem
+  · simp at hmem
+  · simp only [bindings] at hmem
+    cases p <;> simp only [elemKeys, elems] at hmem <;> try (simp at hmem; done)
+    rename_i ks vs
+    have := (List.of_mem_zip hmem).2
+    obtain ⟨q, _, hq⟩ := List.mem_map.mp this
+    rw [← hq]
+
+/-- `keys` / `values` of a value that is neither a map nor an object are refused; the set
+algebra refuses sets whose element types do not unify -/
+theorem keys_values_setop_outside (E : Env) (m : Value) (args : List Value) (etys : List Ty) :
+    (isMapTy m.ty = false → isObjectTy m.ty = false → Fails (keysType [m]) ∧ Fails (valuesType [m])) ∧
+    (setOpElemTypes args = .ok (some etys) → etys ≠ [] → E.unify etys = .ok none → Fails (setOpType E args)) := by
+  refine ⟨?_, ?_⟩
+  · obtain ⟨t, p⟩ := m
+    intro h1 h2
+    cases t <;> simp_all [keysType, valuesType, isMapTy, isObjectTy, Fails]
+  · intro h1 h2 h3
+    refine ⟨"given sets must all have compatible element types", ?_⟩
+    cases etys with
+    | nil => exact absurd rfl h2
+    | cons t ts => simp only [setOpType, h1, h3]
+
 end Stdlib
 end CtyModel
